@@ -3,6 +3,7 @@
 From Salsa Require Import Base.
 From Salsa.Kern Require Import CoreK CoreKFacts.
 From Salsa.Core Require Import Model Spec ReuseProofs.
+From Salsa.Core Require Import Inv InvTop DInvTop DReuse DReuseTop DReuseExamples.
 
 (* An untracked read makes the running query LOW-durability, stamped with the current
    revision, flagged untracked — and later tracked reads keep it LOW and flagged. *)
@@ -42,3 +43,71 @@ Check C04_never_verified_later : forall L q m s,
   deep_verify L q m s = (s, Ok (false, m)) /\
   evict_memo m = m.
 Print Assumptions C04_never_verified_later.
+
+(* ------------------------------------------------------------------------------------
+   EVENT-LEVEL THEOREM over whole histories (every acyclic program, every configuration, inputs
+   and writes of every durability, every history; [gets_sat] as in Props/C03.v): whenever a
+   query whose memo is untracked-origin is requested in a revision later than the one the memo
+   was verified in, and the Get returns a value, the Get EXECUTED the query's body again
+   (EvExec q is among the events it logged) and the value is the from-scratch value of the
+   current inputs and cells.  Dependents see the new value by C01_from_scratch; if the value is
+   equal the query is backdated (C03_equal_value_backdated) and its dependents are only
+   validated (C03_unchanged_reused). *)
+Theorem C04_untracked_reexecutes_spec :
+  forall prog NF s q s' r,
+  untracked_reexecutes prog NF s q s' r <->
+  (forall m v, d_memo s q = Some m -> m_untracked m = true -> m_verified m < cur s -> r = Ok v ->
+   v = eval prog NF (snap_of s) q /\
+   exists new, d_log s' = new ++ d_log s /\ In (EvExec q) new).
+Proof. intros; reflexivity. Qed.
+Check C04_untracked_reexecutes_spec :
+  forall prog NF s q s' r,
+  untracked_reexecutes prog NF s q s' r <->
+  (forall m v, d_memo s q = Some m -> m_untracked m = true -> m_verified m < cur s -> r = Ok v ->
+   v = eval prog NF (snap_of s) q /\
+   exists new, d_log s' = new ++ d_log s /\ In (EvExec q) new).
+Print Assumptions C04_untracked_reexecutes_spec.
+
+Theorem C04_untracked_reexecutes :
+  forall (prog : qkey -> body) (noeq : qkey -> bool) (fams : list N)
+         (rank : qkey -> nat) (NF : nat),
+  calls_below prog rank -> (forall q, (rank q < NF)%nat) ->
+  forall fuel, (forall p, (rank p < fuel)%nat) ->
+  forall iv idur lru0 ops,
+    (forall i, idur i <= 3) -> Forall dur_op ops -> wf_ops false ops ->
+    gets_sat prog noeq fams (untracked_reexecutes prog NF) fuel (init iv idur lru0) ops.
+Proof.
+  intros prog noeq fams rank NF Hrank Hbound.
+  exact (untracked_reexecutes_init prog noeq fams rank Hrank NF Hbound).
+Qed.
+Check C04_untracked_reexecutes :
+  forall (prog : qkey -> body) (noeq : qkey -> bool) (fams : list N)
+         (rank : qkey -> nat) (NF : nat),
+  calls_below prog rank -> (forall q, (rank q < NF)%nat) ->
+  forall fuel, (forall p, (rank p < fuel)%nat) ->
+  forall iv idur lru0 ops,
+    (forall i, idur i <= 3) -> Forall dur_op ops -> wf_ops false ops ->
+    gets_sat prog noeq fams (untracked_reexecutes prog NF) fuel (init iv idur lru0) ops.
+Print Assumptions C04_untracked_reexecutes.
+
+(* non-vacuity (Core/DReuseExamples.v): u reads the untracked cell 0, w = u / 2.  After the cell
+   changed (and a new revision) the Get of w executes u and w; in a later revision with the cell
+   unchanged it executes u again (equal value) and only validates w; after another cell change
+   it executes both again. *)
+Theorem C04_examples :
+  gets_sat rx_prog rx_noeq [] (untracked_reexecutes rx_prog 2) 2 rx_init rx_ops /\
+  option_map (fun m => (m_untracked m, m_verified m)) (d_memo (fst (rx_run 6)) (2, 0)) = Some (true, 1) /\
+  rx_new 7 = [EvExec (3, 0); EvExec (2, 0)] /\
+  rx_new 9 = [EvValidate (3, 0); EvExec (2, 0)] /\
+  rx_new 12 = [EvExec (3, 0); EvExec (2, 0)].
+Proof.
+  split; [exact rx_untracked_reexecutes|].
+  destruct rx_untracked as (A & B & C & D & _). split; [exact A|]. split; [exact B|]. split; assumption.
+Qed.
+Check C04_examples :
+  gets_sat rx_prog rx_noeq [] (untracked_reexecutes rx_prog 2) 2 rx_init rx_ops /\
+  option_map (fun m => (m_untracked m, m_verified m)) (d_memo (fst (rx_run 6)) (2, 0)) = Some (true, 1) /\
+  rx_new 7 = [EvExec (3, 0); EvExec (2, 0)] /\
+  rx_new 9 = [EvValidate (3, 0); EvExec (2, 0)] /\
+  rx_new 12 = [EvExec (3, 0); EvExec (2, 0)].
+Print Assumptions C04_examples.
